@@ -45,6 +45,7 @@ def cases(draw):
         "targets_none": draw(st.integers(0, 5)) == 0,
         "target_picks": draw(st.lists(st.integers(0, 1), min_size=12, max_size=12)),
         "twin_first": draw(st.booleans()),
+        "target_order": draw(st.permutations(list(range(12)))),
     }
 
 
@@ -105,6 +106,9 @@ def check(case):
         targets = None
     else:
         targets = [n for n, p in zip(pool, case["target_picks"]) if p]
+        # the caller's order of the targets is arbitrary (not the declaration order)
+        order = case.get("target_order", list(range(12)))
+        targets = [t for _, t in sorted(zip(order, targets))]
     classes = model_classes(spec, ref)
     if case.get("twin_first"):
         # history: first simulate a twin model (same names and signatures, other table contents
@@ -153,6 +157,10 @@ def check(case):
             for i in range(N):
                 row = df.loc[(t, i)]
                 if not all(np.isfinite(float(row[v])) for v in spec.variables):
+                    continue
+                bad = simcheck.invalid_labels(spec, row, list(spec.variables))
+                if bad:
+                    msgs.append(f"(t={t}, agent={i}): " + "; ".join(bad[:3]))
                     continue
                 for tg in targets:
                     e = ref.eval_at(tg, row, t)
